@@ -154,7 +154,13 @@ func (c *Cluster) genesis() {
 		l.clockMode = 1 + c.gen.Intn(3)
 		l.clockOff = int64(c.gen.U64())
 	}
+	for i := 0; i < cfg.Byz && i < cfg.N0-1; i++ {
+		c.nodes[cfg.N0-1-i].byz = true
+	}
 	for _, n := range ps {
+		if n.byz {
+			continue
+		}
 		if err := c.startNode(n, false); err != nil {
 			panic(harnessError{fmt.Sprintf("start node %d: %v", n.idx, err)})
 		}
